@@ -117,26 +117,31 @@ Theorem history_perms : forall e b ops (m : @mem const),
 Proof. exact history_perms_l. Qed.
 Print Assumptions history_perms.
 
-(* [U] V = il::Expression (model EOps; statement about the DENOTATION of expressions, Rv x c :=
-   eval x = Ok c /\ same width): stores of related values keep an expression memory and a constant
-   memory related; every load from the expression memory denotes the load from the constant memory;
-   hence it evaluates to the specified bytes *)
-Theorem expr_store_sim : forall (me : @mem expr) (mc : @mem const) a x c,
-  Rmem_e me mc -> Rv x c -> Rres Rmem_e (Paged.store EOps me a x) (Paged.store COps mc a c).
+(* [U] V = il::Expression (model EOps).  The statements are about the DENOTATION of expressions under
+   ANY valuation sg of their scalars (evalv sg = executor::eval after the scalars have been replaced by
+   constants; evalv_none: the empty valuation is eval itself): Rv sg x c := evalv sg x = Ok c /\ same
+   width.  Stores of related values keep an expression memory and a constant memory related; every
+   load from the expression memory denotes the load from the constant memory; hence it denotes the
+   specified bytes.  (The exact TREES returned are tied differentially: C08CheckE compares them.) *)
+Theorem expr_store_sim : forall sg (me : @mem expr) (mc : @mem const) a x c,
+  Rmem_e sg me mc -> Rv sg x c -> Rres (Rmem_e sg) (Paged.store EOps me a x) (Paged.store COps mc a c).
 Proof. exact PagedExpr.expr_store_sim. Qed.
 Print Assumptions expr_store_sim.
-Theorem expr_load_sim : forall (me : @mem expr) (mc : @mem const) a bits,
-  Rmem_e me mc -> Rres (Ropt Rv) (load EOps me a bits) (load COps mc a bits).
+Theorem expr_load_sim : forall sg (me : @mem expr) (mc : @mem const) a bits,
+  Rmem_e sg me mc -> Rres (Ropt (Rv sg)) (load EOps me a bits) (load COps mc a bits).
 Proof. exact PagedExpr.expr_load_sim. Qed.
 Print Assumptions expr_load_sim.
-Theorem expr_abs_load : forall (me : @mem expr) (mc : @mem const) a n,
-  Rmem_e me mc -> InvM mc -> back_ok (m_back mc) -> 1 <= n -> 8 * n < 2^63 -> 0 <= a -> a + n <= 2^64 ->
+Theorem expr_abs_load : forall sg (me : @mem expr) (mc : @mem const) a n,
+  Rmem_e sg me mc -> InvM mc -> back_ok (m_back mc) -> 1 <= n -> 8 * n < 2^63 -> 0 <= a -> a + n <= 2^64 ->
   match load_spec (m_end mc) (mabs mc) a n with
-  | Some c => exists x, load EOps me a (8 * n) = Ok (Some x) /\ eval x = Ok c /\ e_bits x = 8 * n
+  | Some c => exists x, load EOps me a (8 * n) = Ok (Some x) /\ evalv sg x = Ok c /\ e_bits x = 8 * n
   | None => load EOps me a (8 * n) = Ok None
   end.
 Proof. exact expr_abs_load_l. Qed.
 Print Assumptions expr_abs_load.
+Theorem expr_eval_is_empty_valuation : forall e, evalv (fun _ => None) e = eval e.
+Proof. exact evalv_none. Qed.
+Print Assumptions expr_eval_is_empty_valuation.
 
 (* the top of the address space (repaired code): a store ending exactly at 2^64 succeeds and is read
    back; a store reaching beyond it is rejected with an error, not a panic *)
